@@ -1,5 +1,6 @@
 import AC.ProgramTie
 import AC.BigintTie
+import AC.BigintsTie
 import AC.Decomp
 /-! # The translated `FixedWindow.Decompose` equals the model (C09 translator tie)
 
@@ -86,5 +87,53 @@ theorem fixedWindow_tie (x K : Nat) (hx : 1 ≤ x) (hK : 1 ≤ K) :
   simp only [hbl, Int.toNat_natCast, bind, Option.bind]
   rw [show ([] : List GTerm) = toGTs [] from rfl, this]
   simp [sort_tie]
+
+/-! ## `Term.Int`, `Sum.Int`, `Sum.Dictionary` (translated from dict.go on every run) -/
+
+/-- translated `Term.Int` = `d·2^e` -/
+theorem termInt_tie (t : Term) : dictTermInt (toGT t) = some ((t.d * 2 ^ t.e : Nat) : Int) := by
+  simp [dictTermInt, toGT, bLsh, Int.natCast_pow]
+
+theorem sumInt_loop_tie : ∀ (l s : List Term) (acc : Nat),
+    dictSumInt_loop1 (toGTs l) (toGTs s) (acc : Int) = some ((acc + value l : Nat) : Int) := by
+  intro l
+  induction l with
+  | nil => intro s acc; simp [dictSumInt_loop1, toGTs, value]
+  | cons t l ih =>
+    intro s acc
+    have h := ih s (acc + t.d * 2 ^ t.e)
+    simp only [toGTs, List.map_cons] at h ⊢
+    simp only [dictSumInt_loop1, termInt_tie, bind, Option.bind, bAdd]
+    rw [show ((acc : Int) + ((t.d * 2 ^ t.e : Nat) : Int)) = ((acc + t.d * 2 ^ t.e : Nat) : Int) by simp]
+    rw [h]
+    simp [value, Nat.add_assoc]
+
+/-- translated `Sum.Int` never panics and is the model's `value` (Σ d·2^e) -/
+theorem sumInt_tie (s : List Term) : dictSumInt (toGTs s) = some ((value s : Nat) : Int) := by
+  have := sumInt_loop_tie s s 0
+  simp only [Int.natCast_zero, Nat.zero_add] at this
+  simp [dictSumInt, AC.Gen.Bigint.zero, bNewInt, this]
+
+theorem dictionary_loop_tie : ∀ (l s : List Term) (acc : List Int),
+    dictSumDictionary_loop1 (toGTs l) (toGTs s) acc =
+      some (P.sortUniq (acc ++ l.map fun t => (t.d : Int))) := by
+  intro l
+  induction l with
+  | nil =>
+    intro s acc
+    simp [dictSumDictionary_loop1, toGTs, bigintsSort, AC.BigintsTie.unique_tie, P.sortUniq]
+  | cons t l ih =>
+    intro s acc
+    have h := ih s (acc ++ [(t.d : Int)])
+    simp only [toGTs, List.map_cons] at h ⊢
+    simp only [dictSumDictionary_loop1, toGT]
+    rw [h]
+    simp
+
+/-- translated `Sum.Dictionary` never panics and is the model's `dictionary` (sorted, distinct `d`) -/
+theorem dictionary_tie (s : List Term) : dictSumDictionary (toGTs s) = some (dictionary s) := by
+  have := dictionary_loop_tie s s []
+  simp only [List.nil_append] at this
+  simp [dictSumDictionary, makeBigs, this, dictionary]
 
 end AC.DecompTie
